@@ -225,7 +225,7 @@ class FactFlow:
             targets = a.targets if isinstance(a, ast.Assign) else [a.target]
             if value is not None and len(targets) == 1 and isinstance(targets[0], ast.Name):
                 name = targets[0].id
-                if name not in _deps(value) and not _has_call_other_than(value, {"len", "min", "max"}):
+                if name not in _deps(value) and not _has_call_other_than(value, {"len", "min", "max", "float", "int", "str", "abs"}):
                     f = Fact("eq", value, True, name)
                     out = dict(out)
                     out[f.key] = f
